@@ -12,6 +12,7 @@ INVARIANT CombineTuple
 INVARIANT TypedDeclarative
 INVARIANT NestedFlattens
 INVARIANT CarriesName
+INVARIANT CarriesAttributes
 INVARIANT FrameVariableOnly
 INVARIANT VarUnchanged
 INVARIANT Repeatable
